@@ -250,3 +250,14 @@ Definition split_spec (li : Z) (s : list Z) (lim : Z) : option (list ov * Z) :=
   end.
 
 End Proto.
+
+(* 15.5.4.14 with a separator that is not a regular expression: SplitMatch(S, q, R)
+   succeeds iff R occurs at q; an undefined separator gives [S] (step 10) *)
+Definition lit_matcher (sep : list Z) : list Z -> nat -> mres :=
+  fun s q => if prefixb sep (skipn q s) then MOk (q + length sep)%nat [] else MFail.
+Definition split_str_spec (s : list Z) (sep : option (list Z)) (lim : Z) : option (list ov) :=
+  if lim =? 0 then Some [OZ 0]
+  else match sep with
+       | None => Some [OZ 1; OS s]
+       | Some sp => option_map fst (split_spec (lit_matcher sp) 0 s lim)
+       end.
